@@ -8,6 +8,7 @@ from reamber.base.Property import map_props, stack_props
 from reamber.base.lists import TimedList
 from reamber.osu.OsuMapMeta import OsuMapMeta
 from reamber.osu.OsuNoteMeta import OsuNoteMeta
+from reamber.osu.OsuSampleSet import OsuSampleSet
 from reamber.osu.OsuTimingPointMeta import OsuTimingPointMeta
 from reamber.osu.lists.OsuBpmList import OsuBpmList
 from reamber.osu.lists.OsuSampleList import OsuSampleList
@@ -34,10 +35,13 @@ class OsuMap(Map[OsuNoteList, OsuHitList, OsuHoldList, OsuBpmList], OsuMapMeta):
     def reset_samples(self, of_notes=True, of_samples=True) -> None:
         """Resets all hitsounds and samples"""
         if of_notes:
-            for n in self.hits:
-                n.reset_samples()
-            for n in self.holds:
-                n.reset_samples()
+            # Iterating a list yields copies of its items: reset the columns themselves
+            for notes in (self.hits, self.holds):
+                notes.hitsound_set = OsuSampleSet.AUTO
+                notes.sample_set = OsuSampleSet.AUTO
+                notes.addition_set = OsuSampleSet.AUTO
+                notes.custom_set = 0
+                notes.hitsound_file = ""
 
         if of_samples:
             self.samples = OsuSampleList([])
